@@ -737,8 +737,20 @@ Definition repair_required (inp : input) : bool :=
                  (fit_rules (i_fit inp))
   end.
 
+(* the placement fit is an INPUT of the model (read from the real FitRegion), so it is judged too: it has to be a partition of the
+   region's peers - every peer in exactly one rule fit or in the orphan list - otherwise "the peer is an orphan" says nothing *)
+Definition fit_ids (f : fit) : list Z := flat_map (fun rf => map p_id (rf_peers rf)) (fit_rules f) ++ map p_id (fit_orphans f).
+Definition fit_wf (r : region) (f : fit) : bool :=
+  nodupZb (fit_ids f)
+  && forallb (fun p => memZ (p_id p) (fit_ids f)) (peers r)
+  && forallb (fun i => memZ i (map p_id (peers r))) (fit_ids f).
+Definition held_by_rule (f : fit) (st : Z) : bool := existsb (fun rf => memZ st (map p_store (rf_peers rf))) (fit_rules f).
+Definition fit_judged (inp : input) : bool :=
+  match eff_entry inp with ERule => match fit_rules (i_fit inp) with [] => false | _ => true end | _ => false end.
+
 Definition monitor (c : case) : option string :=
   let inp := fst c in
+  if fit_judged inp && negb (fit_wf (i_region inp) (i_fit inp)) then Some "C10:fit-is-not-a-partition-of-the-peers" else
   match snd c with
   | None => if repair_required inp then Some "C10:no-repair-although-target-exists" else None
   | Some io =>
@@ -756,6 +768,8 @@ Definition monitor (c : case) : option string :=
           | [] =>
               if (List.length (rs_peers fin) <? List.length (rs_peers s0))%nat && negb (removal_allowed inp rm)
               then Some "C10:replica-removed-without-surplus"
+              else if (List.length (rs_peers fin) <? List.length (rs_peers s0))%nat && fit_judged inp && existsb (held_by_rule (i_fit inp)) rm
+              then Some "C10:removed-peer-is-held-by-a-rule"
               else if match ad with [] => false | _ => negb (balanced_prefixes (io_steps io)) end then Some "C10:remove-before-add"
               else if negb (forallb (fun s => (List.length (rs_peers s0) <=? List.length (rs_peers s))%nat
                                               || (List.length (rs_peers fin) <? List.length (rs_peers s0))%nat) tr)
